@@ -103,22 +103,22 @@ type WObs struct {
 	BSQueries   []string    `json:"bsQueries"`
 	MemChecks   [][2]string `json:"memChecks"`
 	// Go-side only:
-	Panic     string   `json:"panic,omitempty"`
-	EventsOK  bool     `json:"eventsOK"` // every event carried the call's context and the store's flag pointer
-	RawLogs   []string `json:"rawLogs,omitempty"`
+	Panic    string   `json:"panic,omitempty"`
+	EventsOK bool     `json:"eventsOK"` // every event carried the call's context and the store's flag pointer
+	RawLogs  []string `json:"rawLogs,omitempty"`
 }
 
 type EvalCase struct {
-	ID    string     `json:"id"`
-	Kind  string     `json:"kind"`
-	Opts  WOpts      `json:"opts"`
-	Store WStore     `json:"store"`
-	Flag  WFlag      `json:"flag"`
-	Ctx   WCtx       `json:"ctx"`
-	BS    *WBS       `json:"bs"`
-	Rx    [][3]any   `json:"rx"`
-	Go    *WObs      `json:"go,omitempty"`
-	Tags  []string   `json:"tags,omitempty"`
+	ID    string   `json:"id"`
+	Kind  string   `json:"kind"`
+	Opts  WOpts    `json:"opts"`
+	Store WStore   `json:"store"`
+	Flag  WFlag    `json:"flag"`
+	Ctx   WCtx     `json:"ctx"`
+	BS    *WBS     `json:"bs"`
+	Rx    [][3]any `json:"rx"`
+	Go    *WObs    `json:"go,omitempty"`
+	Tags  []string `json:"tags,omitempty"`
 }
 
 // ---------- realised case ----------
@@ -183,7 +183,9 @@ func (p *realBS) GetMembership(key string) (evaluation.BigSegmentMembership, ldr
 
 type captureLogger struct{ lines []string }
 
-func (l *captureLogger) Println(values ...interface{}) { l.lines = append(l.lines, fmt.Sprintln(values...)) }
+func (l *captureLogger) Println(values ...interface{}) {
+	l.lines = append(l.lines, fmt.Sprintln(values...))
+}
 func (l *captureLogger) Printf(format string, values ...interface{}) {
 	l.lines = append(l.lines, fmt.Sprintf(format, values...))
 }
@@ -300,11 +302,18 @@ func newSetupGeneric(opts *WOpts, store *realStore, ms *mutableStore, bs *WBS) *
 	case opts.LogMode == "nilopt":
 		options = append(options, evaluation.EvaluatorOptionErrorLogger(nil))
 	}
-	options = append(options, evaluation.EvaluatorOptionEnableSecondaryKey(opts.Sec))
+	if opts.Sec || len(options) > 0 {
+		options = append(options, evaluation.EvaluatorOptionEnableSecondaryKey(opts.Sec))
+	}
+	var dp evaluation.DataProvider = store
 	if ms != nil {
-		s.ev = evaluation.NewEvaluatorWithOptions(ms, options...)
+		dp = ms
+	}
+	if len(options) == 0 {
+		// nothing configured: the plain constructor (all defaults)
+		s.ev = evaluation.NewEvaluator(dp)
 	} else {
-		s.ev = evaluation.NewEvaluatorWithOptions(store, options...)
+		s.ev = evaluation.NewEvaluatorWithOptions(dp, options...)
 	}
 	return s
 }
